@@ -18,9 +18,10 @@ def signature(c, o):
     doc = l1.lstrip().startswith("---") or l2.lstrip().startswith("---")
     if not d["ws_only"]:
         return "C06/tokens/%s" % (d["stat"] if doc else d["node"])
-    # only the gap in front of a trailing line comment differs (code part and comment text identical)
+    # only the gap in front of a trailing LINE comment differs (code part and comment text identical; not `--[[ .. ]]`)
     p1, p2 = l1.find("--"), l2.find("--")
-    if p1 > 0 and p2 > 0 and l1[:p1].strip() and l1[:p1].rstrip() == l2[:p2].rstrip() and l1[p1:] == l2[p2:]:
+    if p1 > 0 and p2 > 0 and l1[:p1].strip() and l1[:p1].rstrip() == l2[:p2].rstrip() and l1[p1:] == l2[p2:] \
+            and not l1[p1:].startswith("--["):
         return "C06/space/trailing-comment-gap/%s" % d.get("owner", "none")
     path = d.get("path", [])
     lambda_arg = any(a == "ClosureExpr" and b == "CallArgList" for a, b in zip(path, path[1:]))
